@@ -30,7 +30,7 @@ TARGETS = {
     "detector/src/midas.rs": (["C01", "C08", "C10"], [(130, 560)]),
     "detector/src/alpha16/aw_map.rs": (["C01", "C08", "C09", "C10"], [(100, 195)]),
     "detector/src/padwing/map.rs": (["C01", "C08", "C09", "C10"], [(100, 130), (180, 200), (380, 392), (560, 640)]),
-    "physics/src/lib.rs": (["C09", "C10", "C11", "C18"], [(116, 140), (240, 380)]),
+    "physics/src/lib.rs": (["C09", "C10", "C11", "C13", "C18"], [(116, 140), (240, 380)]),
     "physics/src/drift.rs": (["C09", "C18"], [(20, 72)]),
     "detector/src/alpha16.rs#rest": (["C01", "C02", "C08"], [(40, 679), (900, 1300)]),
     "detector/src/padwing.rs#rest": (["C01", "C03", "C04", "C05", "C08"], [(40, 559), (681, 1319), (1601, 2040)]),
@@ -38,7 +38,7 @@ TARGETS = {
     "detector/src/chronobox.rs#rest": (["C01", "C07", "C08", "C20"], [(200, 340)]),
     "detector/src/alpha16/aw_map.rs#rest2": (["C01", "C08", "C09", "C10"], [(1, 99), (196, 400)]),
     "detector/src/padwing/map.rs#rest2": (["C01", "C08", "C09", "C10"], [(1, 99), (131, 179), (201, 379), (393, 559), (641, 900)]),
-    "physics/src/lib.rs#rest2": (["C09", "C10", "C11", "C18"], [(1, 115), (141, 239), (381, 470)]),
+    "physics/src/lib.rs#rest2": (["C09", "C10", "C11", "C15", "C18"], [(1, 115), (141, 239), (381, 470)]),
     "physics/src/matching.rs": (["C08", "C09", "C10", "C13"], [(1, 130)]),
     "physics/src/deconvolution/wires.rs": (["C09", "C13"], [(1, 200)]),
     "physics/src/calibration/pads/gain.rs": (["C08", "C10"], [(1, 80)]),
